@@ -1383,6 +1383,8 @@ def container_method(I, obj, name):
             return obj
         if name in ('shape',):
             return (list_len(I, obj),)
+        if name == 'dtype' and obj.nd:
+            return TypeTag('float')
         if name == 'astype':
             return B(lambda I_, a, k: _astype(I_, obj, a[0]))
         if name in ('sort', 'reverse', 'remove', 'count'):
